@@ -27,7 +27,7 @@ FAMILIES = {
 # property -> families whose judges print verdicts for it
 PROPS = {
     # (the merge, links and reader judges also print C03/C04 verdicts; those families are run by their own properties)
-    "C03": ["tree", "clone"], "C04": ["tree", "clone"], "C05": ["values"], "C06": ["tree", "values", "card", "merge", "links"],
+    "C03": ["tree", "clone", "links"], "C04": ["tree", "clone"], "C05": ["values"], "C06": ["tree", "values", "card", "merge", "links"],
     "C09": ["card"],
     "C14": ["paths"],
     "C11": ["clone", "values"],
